@@ -24,9 +24,10 @@ structure QC (s s' : Sys) : Prop where
   tlen : s.threads.length ≤ s'.threads.length
   kinds : ∀ u, u < s.threads.length → (s'.thr u).kind = (s.thr u).kind
   newNP : ∀ u, s.threads.length ≤ u → u < s'.threads.length → ∀ k, (s'.thr u).kind ≠ .proc k
+  launches : ∀ j, (s'.inst j).launches = (s.inst j).launches
 
 theorem QC.refl (s : Sys) : QC s s :=
-  ⟨rfl, rfl, fun _ h => h, rfl, Nat.le_refl _, fun _ _ => rfl, fun u h1 h2 => absurd h2 (Nat.not_lt.mpr h1)⟩
+  ⟨rfl, rfl, fun _ h => h, rfl, Nat.le_refl _, fun _ _ => rfl, fun u h1 h2 => absurd h2 (Nat.not_lt.mpr h1), fun _ => rfl⟩
 theorem QC.trans {a b c : Sys} (h1 : QC a b) (h2 : QC b c) : QC a c :=
   ⟨h2.running.trans h1.running, h2.ilen.trans h1.ilen, fun j h => h1.alive j (h2.alive j h), h2.pids.trans h1.pids,
    Nat.le_trans h1.tlen h2.tlen,
@@ -34,7 +35,8 @@ theorem QC.trans {a b c : Sys} (h1 : QC a b) (h2 : QC b c) : QC a c :=
    fun u hu hc k => by
      by_cases hb : u < b.threads.length
      · rw [h2.kinds u hb]; exact h1.newNP u hu hb k
-     · exact h2.newNP u (Nat.le_of_not_lt hb) hc k⟩
+     · exact h2.newNP u (Nat.le_of_not_lt hb) hc k,
+   fun j => (h2.launches j).trans (h1.launches j)⟩
 
 structure CSame (s s' : Sys) : Prop where
   running : s'.running = s.running
@@ -44,24 +46,34 @@ structure CSame (s s' : Sys) : Prop where
 theorem QC.of_same {s s' : Sys} (h : CSame s s') : QC s s' :=
   ⟨h.running, by rw [h.insts], fun j hj => by unfold Sys.inst at hj ⊢; rw [h.insts] at hj; exact hj,
    by unfold procIds; rw [h.threads], by rw [h.threads]; exact Nat.le_refl _, fun u _ => by unfold Sys.thr; rw [h.threads],
-   fun u h1 h2 => absurd h2 (by rw [h.threads]; exact Nat.not_lt.mpr h1)⟩
+   fun u h1 h2 => absurd h2 (by rw [h.threads]; exact Nat.not_lt.mpr h1),
+   fun j => by unfold Sys.inst; rw [h.insts]⟩
 
 macro "csame" : tactic => `(tactic| exact ⟨rfl, rfl, rfl⟩)
 
 theorem inst_default_cmd (s : Sys) (j : IId) (hj : ¬ j < s.insts.length) : (s.inst j).cmd = .none := by
   rw [inst_default' s j (Nat.le_of_not_lt hj)]
 
-/-- an update of one instance record that does not bring a command to life -/
+/-- an update of one instance record that does not bring a command to life (nor counts a launch) -/
 theorem setInst_c (s : Sys) (i : IId) (f : Inst → Inst)
-    (hf : ∀ x, (f x).cmd = .alive → x.cmd = .alive := by intro x h; first | exact h | cases h) : QC s (s.setInst i f) := by
-  refine ⟨rfl, by simp [Sys.setInst], fun j hj => ?_, rfl, Nat.le_refl _, fun _ _ => rfl, fun u h1 h2 => absurd h2 (Nat.not_lt.mpr h1)⟩
-  by_cases hl : j < s.insts.length
-  · rw [inst_setInst _ _ _ _ hl] at hj
-    split at hj
-    · exact hf _ hj
-    · exact hj
-  · have : ¬ j < (s.setInst i f).insts.length := by simpa [Sys.setInst] using hl
-    rw [inst_default_cmd _ _ this] at hj; cases hj
+    (hf : ∀ x, ((f x).cmd = .alive → x.cmd = .alive) ∧ (f x).launches = x.launches := by
+      intro x; exact ⟨fun h => (by first | exact h | cases h), rfl⟩) : QC s (s.setInst i f) := by
+  refine ⟨rfl, by simp [Sys.setInst], fun j hj => ?_, rfl, Nat.le_refl _, fun _ _ => rfl, fun u h1 h2 => absurd h2 (Nat.not_lt.mpr h1), fun j => ?_⟩
+  · by_cases hl : j < s.insts.length
+    · rw [inst_setInst _ _ _ _ hl] at hj
+      split at hj
+      · exact (hf _).1 hj
+      · exact hj
+    · have : ¬ j < (s.setInst i f).insts.length := by simpa [Sys.setInst] using hl
+      rw [inst_default_cmd _ _ this] at hj; cases hj
+  · by_cases hl : j < s.insts.length
+    · rw [inst_setInst _ _ _ _ hl]
+      split
+      · exact (hf _).2
+      · rfl
+    · have h1 := inst_default' s j (Nat.le_of_not_lt hl)
+      have h2 := inst_default' (s.setInst i f) j (by simpa [Sys.setInst] using Nat.le_of_not_lt hl)
+      rw [h1, h2]
 theorem emit_c (s : Sys) (o) : QC s (s.emit o) := QC.of_same (by csame)
 theorem note_c (s : Sys) (e : GateEv) (_he : ∀ i d c, e ≠ .passed i d c) : QC s (s.note e) := QC.of_same (by csame)
 theorem notePassed_c (s : Sys) (i d : IId) (c : Cond) : QC s (s.notePassed i d c) := by
@@ -88,10 +100,10 @@ theorem setPc_c (s : Sys) (t pc) : QC s (s.setPc t pc) :=
      by_cases e : u = t
      · subst e; exact thr_setPc_kind s u pc
      · rw [thr_setPc_ne s t u pc e],
-   fun u h1 h2 => absurd h2 (by simpa [Sys.setPc] using Nat.not_lt.mpr h1)⟩
+   fun u h1 h2 => absurd h2 (by simpa [Sys.setPc] using Nat.not_lt.mpr h1), fun _ => rfl⟩
 /-- a new thread that is not a process goroutine -/
 theorem spawn_c (s : Sys) (k) (hk : ∀ i, k = .proc i → False) : QC s (s.spawn k) := by
-  refine ⟨rfl, rfl, fun _ h => h, ?_, by simp [Sys.spawn], fun u hu => ?_, fun u h1 h2 j => ?_⟩
+  refine ⟨rfl, rfl, fun _ h => h, ?_, by simp [Sys.spawn], fun u hu => ?_, fun u h1 h2 j => ?_, fun _ => rfl⟩
   · unfold procIds Sys.spawn
     simp only [List.filterMap_append, List.filterMap_cons, List.filterMap_nil]
     cases k <;> simp [Kind.procId] <;> exact (hk _ rfl).elim
@@ -474,10 +486,13 @@ structure StepFacts (s s' : Sys) (t : Tid) : Prop where
   alive : ∀ j, (s'.inst j).cmd = .alive → (s.inst j).cmd = .alive ∨
     ((s.thr t).kind = .proc j ∧ (t < s.threads.length → (s'.thr t).pc = .cmdWait))
   fin : ∀ i, (s.thr t).kind = .proc i → s'.running ≠ s.running → t < s.threads.length → (s'.thr t).pc = .finished
+  launches : ∀ j, (s'.inst j).launches = (s.inst j).launches ∨
+    ((s.thr t).kind = .proc j ∧ (s'.inst j).launches = (s.inst j).launches + 1 ∧
+      ((s.thr t).pc = .runChecked ∨ (s.thr t).pc = .backoffElapsed) ∧ (t < s.threads.length → (s'.thr t).pc = .cmdWait))
 
 theorem QC.facts {s s' : Sys} (t : Tid) (h : QC s s') : StepFacts s s' t :=
   ⟨fun g => by unfold PR at g ⊢; rw [h.pids, h.ilen]; exact g, fun j hj => Or.inl (h.alive j hj),
-   fun _ _ hr => absurd h.running hr⟩
+   fun _ _ hr => absurd h.running hr, fun j => Or.inl (h.launches j)⟩
 
 /-- like `QC`, except that the command of instance `i` may have been brought to life -/
 structure LQ (i : IId) (s s' : Sys) : Prop where
@@ -488,6 +503,7 @@ structure LQ (i : IId) (s s' : Sys) : Prop where
   tlen : s.threads.length ≤ s'.threads.length
   kinds : ∀ u, u < s.threads.length → (s'.thr u).kind = (s.thr u).kind
   newNP : ∀ u, s.threads.length ≤ u → u < s'.threads.length → ∀ k, (s'.thr u).kind ≠ .proc k
+  launches : ∀ j, (s'.inst j).launches = (s.inst j).launches ∨ (j = i ∧ (s'.inst j).launches = (s.inst j).launches + 1)
 
 theorem LQ.after {i : IId} {a b c : Sys} (h1 : QC a b) (h2 : LQ i b c) : LQ i a c :=
   ⟨h2.running.trans h1.running, h2.ilen.trans h1.ilen, fun j hj => (h2.alive j hj).imp (h1.alive j) id, h2.pids.trans h1.pids,
@@ -496,7 +512,11 @@ theorem LQ.after {i : IId} {a b c : Sys} (h1 : QC a b) (h2 : LQ i b c) : LQ i a 
    fun u hu hc k => by
      by_cases hb : u < b.threads.length
      · rw [h2.kinds u hb]; exact h1.newNP u hu hb k
-     · exact h2.newNP u (Nat.le_of_not_lt hb) hc k⟩
+     · exact h2.newNP u (Nat.le_of_not_lt hb) hc k,
+   fun j => by
+     rcases h2.launches j with e | ⟨e1, e2⟩
+     · exact Or.inl (e.trans (h1.launches j))
+     · exact Or.inr ⟨e1, by rw [e2, h1.launches j]⟩⟩
 theorem LQ.before {i : IId} {a b c : Sys} (h1 : LQ i a b) (h2 : QC b c) : LQ i a c :=
   ⟨h2.running.trans h1.running, h2.ilen.trans h1.ilen, fun j hj => h1.alive j (h2.alive j hj), h2.pids.trans h1.pids,
    Nat.le_trans h1.tlen h2.tlen,
@@ -504,19 +524,36 @@ theorem LQ.before {i : IId} {a b c : Sys} (h1 : LQ i a b) (h2 : QC b c) : LQ i a
    fun u hu hc k => by
      by_cases hb : u < b.threads.length
      · rw [h2.kinds u hb]; exact h1.newNP u hu hb k
-     · exact h2.newNP u (Nat.le_of_not_lt hb) hc k⟩
+     · exact h2.newNP u (Nat.le_of_not_lt hb) hc k,
+   fun j => by
+     rcases h1.launches j with e | ⟨e1, e2⟩
+     · exact Or.inl ((h2.launches j).trans e)
+     · exact Or.inr ⟨e1, by rw [h2.launches j, e2]⟩⟩
 
-theorem setInst_lq (s : Sys) (i : IId) (f : Inst → Inst) : LQ i s (s.setInst i f) := by
-  refine ⟨rfl, by simp [Sys.setInst], fun j hj => ?_, rfl, Nat.le_refl _, fun _ _ => rfl, fun u h1 h2 => absurd h2 (Nat.not_lt.mpr h1)⟩
-  by_cases e : j = i
-  · exact Or.inr e
-  · left
-    by_cases hl : j < s.insts.length
-    · rw [inst_setInst _ _ _ _ hl] at hj
-      simp only [Ne.symm e, ↓reduceIte] at hj
-      exact hj
-    · have : ¬ j < (s.setInst i f).insts.length := by simpa [Sys.setInst] using hl
-      rw [inst_default_cmd _ _ this] at hj; cases hj
+theorem setInst_lq (s : Sys) (i : IId) (f : Inst → Inst)
+    (hl : ∀ x, (f x).launches = x.launches ∨ (f x).launches = x.launches + 1) : LQ i s (s.setInst i f) := by
+  refine ⟨rfl, by simp [Sys.setInst], fun j hj => ?_, rfl, Nat.le_refl _, fun _ _ => rfl, fun u h1 h2 => absurd h2 (Nat.not_lt.mpr h1), fun j => ?_⟩
+  · by_cases e : j = i
+    · exact Or.inr e
+    · left
+      by_cases hl : j < s.insts.length
+      · rw [inst_setInst _ _ _ _ hl] at hj
+        simp only [Ne.symm e, ↓reduceIte] at hj
+        exact hj
+      · have : ¬ j < (s.setInst i f).insts.length := by simpa [Sys.setInst] using hl
+        rw [inst_default_cmd _ _ this] at hj; cases hj
+  · by_cases hlt : j < s.insts.length
+    · rw [inst_setInst _ _ _ _ hlt]
+      split
+      · rename_i e
+        rcases hl (s.inst j) with h | h
+        · exact Or.inl h
+        · exact Or.inr ⟨e.symm, h⟩
+      · exact Or.inl rfl
+    · left
+      have h1 := inst_default' s j (Nat.le_of_not_lt hlt)
+      have h2 := inst_default' (s.setInst i f) j (by simpa [Sys.setInst] using Nat.le_of_not_lt hlt)
+      rw [h1, h2]
 
 theorem clock_c (s : Sys) (k : Nat) : QC s { s with launchClock := k } := QC.of_same (by csame)
 
@@ -538,30 +575,33 @@ theorem doLaunch_cases (s : Sys) (t : Tid) (i : IId) :
     · constructor
       · refine LQ.before ?_ (setPc_c _ _ _)
         refine LQ.before ?_ (spawn_c _ _ (by intro i h; cases h))
-        refine LQ.after ?_ (setInst_lq _ _ _)
+        refine LQ.after ?_ (setInst_lq _ _ _ (fun _ => Or.inr rfl))
         exact ((setState_c s i .running).then (emit_c _ _)).then (clock_c _ _)
       · intro ht
         exact pc_setPc _ _ _ (by simp [Sys.spawn]; exact Nat.lt_succ_of_lt ht)
     · constructor
       · refine LQ.before ?_ (setPc_c _ _ _)
-        refine LQ.after ?_ (setInst_lq _ _ _)
+        refine LQ.after ?_ (setInst_lq _ _ _ (fun _ => Or.inr rfl))
         exact ((setState_c s i .running).then (emit_c _ _)).then (clock_c _ _)
       · intro ht
         exact pc_setPc _ _ _ (by simpa using ht)
 
 theorem lq_facts {s s' : Sys} {t : Tid} {i : IId} (hk : (s.thr t).kind = .proc i) (h : LQ i s s')
-    (hp : t < s.threads.length → (s'.thr t).pc = .cmdWait) : StepFacts s s' t :=
+    (hp : t < s.threads.length → (s'.thr t).pc = .cmdWait)
+    (hpc : (s.thr t).pc = .runChecked ∨ (s.thr t).pc = .backoffElapsed) : StepFacts s s' t :=
   ⟨fun g => by unfold PR at g ⊢; rw [h.pids, h.ilen]; exact g,
    fun j hj => (h.alive j hj).imp id (fun e => by subst e; exact ⟨hk, hp⟩),
-   fun _ _ hr => absurd h.running hr⟩
+   fun _ _ hr => absurd h.running hr,
+   fun j => (h.launches j).imp id (fun e => by obtain ⟨e1, e2⟩ := e; subst e1; exact ⟨hk, e2, hpc, hp⟩)⟩
 
-theorem doLaunch_facts (s : Sys) (t : Tid) (i : IId) (hk : (s.thr t).kind = .proc i) : StepFacts s (doLaunch s t i) t := by
+theorem doLaunch_facts (s : Sys) (t : Tid) (i : IId) (hk : (s.thr t).kind = .proc i)
+    (hpc : (s.thr t).pc = .backoffElapsed) : StepFacts s (doLaunch s t i) t := by
   rcases doLaunch_cases s t i with h | ⟨h, hp⟩
   · exact h.facts t
-  · exact lq_facts hk h hp
+  · exact lq_facts hk h hp (Or.inr hpc)
 
-theorem armRunChecked_facts (s : Sys) (t : Tid) (i : IId) (hk : (s.thr t).kind = .proc i) :
-    StepFacts s (armRunChecked s t i) t := by
+theorem armRunChecked_facts (s : Sys) (t : Tid) (i : IId) (hk : (s.thr t).kind = .proc i)
+    (hpc : (s.thr t).pc = .runChecked) : StepFacts s (armRunChecked s t i) t := by
   unfold armRunChecked
   split
   · exact (((setExit_c _ _ _).then (onProcessEnd_c _ _ _)).then (setPc_c _ _ _)).facts t
@@ -569,7 +609,7 @@ theorem armRunChecked_facts (s : Sys) (t : Tid) (i : IId) (hk : (s.thr t).kind =
       (setInst_c _ _ _).then (emit_c _ _)
     rcases doLaunch_cases ((s.setInst i fun x => { x with started := true }).emit (.started (s.nameOf i))) t i with h | ⟨h, hp⟩
     · exact (h0.then h).facts t
-    · exact lq_facts hk (LQ.after h0 h) (fun ht => hp (by simpa using ht))
+    · exact lq_facts hk (LQ.after h0 h) (fun ht => hp (by simpa using ht)) (Or.inl hpc)
 
 /-- the unregistration: nothing but the registry and the goroutine's own label changes, and the
     goroutine has finished -/
@@ -579,7 +619,8 @@ theorem armLockCleanup_facts (s : Sys) (t : Tid) (i : IId) : StepFacts s (armLoc
     unfold armLockCleanup; split
     · exact procIds_setPc _ _ _
     · exact procIds_setPc _ _ _
-  refine ⟨fun g => by unfold PR at g ⊢; rw [hp, hi]; exact g, fun j hj => Or.inl ?_, fun _ _ _ ht => ?_⟩
+  refine ⟨fun g => by unfold PR at g ⊢; rw [hp, hi]; exact g, fun j hj => Or.inl ?_, fun _ _ _ ht => ?_,
+    fun j => Or.inl (by unfold Sys.inst; rw [hi])⟩
   · unfold Sys.inst at hj ⊢; rw [hi] at hj; exact hj
   · unfold armLockCleanup; split
     · exact pc_setPc _ _ _ (by simpa using ht)
@@ -589,13 +630,14 @@ theorem armLockCleanup_facts (s : Sys) (t : Tid) (i : IId) : StepFacts s (armLoc
 structure SQ (s s' : Sys) : Prop where
   alive : ∀ j, (s'.inst j).cmd = .alive → (s.inst j).cmd = .alive
   pr : PR s → PR s'
+  launches : ∀ j, (s'.inst j).launches = (s.inst j).launches
 
 theorem SQ.trans {a b c : Sys} (h1 : SQ a b) (h2 : SQ b c) : SQ a c :=
-  ⟨fun j hj => h1.alive j (h2.alive j hj), fun g => h2.pr (h1.pr g)⟩
+  ⟨fun j hj => h1.alive j (h2.alive j hj), fun g => h2.pr (h1.pr g), fun j => (h2.launches j).trans (h1.launches j)⟩
 theorem QC.sq {s s' : Sys} (h : QC s s') : SQ s s' :=
-  ⟨h.alive, fun g => by unfold PR at g ⊢; rw [h.pids, h.ilen]; exact g⟩
+  ⟨h.alive, fun g => by unfold PR at g ⊢; rw [h.pids, h.ilen]; exact g, h.launches⟩
 theorem SQ.facts {s s' : Sys} (t : Tid) (h : SQ s s') (hk : ∀ i, (s.thr t).kind ≠ .proc i) : StepFacts s s' t :=
-  ⟨h.pr, fun j hj => Or.inl (h.alive j hj), fun i hi => absurd hi (hk i)⟩
+  ⟨h.pr, fun j hj => Or.inl (h.alive j hj), fun i hi => absurd hi (hk i), fun j => Or.inl (h.launches j)⟩
 
 theorem spawnProc_sq (s : Sys) (n : Name) : SQ s (spawnProc s n) := by
   have hins : (spawnProc s n).insts = s.insts ++ [{ name := n, seq := (s.insts.filter (·.name = n)).length + 1 }] := by
@@ -622,6 +664,16 @@ theorem spawnProc_sq (s : Sys) (n : Name) : SQ s (spawnProc s n) := by
     unfold PR procIds at g ⊢
     rw [hthr, hins, List.filterMap_append, g]
     simp [Kind.procId, List.range_succ]
+  · intro j
+    unfold Sys.inst
+    rw [hins]
+    simp only [List.getD_eq_getElem?_getD]
+    by_cases hl : j < s.insts.length
+    · rw [List.getElem?_append_left hl]
+    · rw [List.getElem?_append_right (Nat.le_of_not_lt hl), List.getElem?_eq_none (Nat.le_of_not_lt hl)]
+      cases hjj : j - s.insts.length with
+      | zero => simp
+      | succ k => simp
 
 theorem foldl_sq {α : Type} (f : Sys → α → Sys) (hf : ∀ s a, SQ s (f s a)) (l : List α) (s : Sys) : SQ s (l.foldl f s) := by
   induction l generalizing s with
@@ -649,7 +701,7 @@ theorem apiFirst_sq (s : Sys) (t h op) : SQ s (apiFirst s t h op) := by
     simp only
     refine SQ.trans ?_ (setPc_c _ _ _).sq
     refine SQ.trans ?_ (foldl_sq _ spawnProc_sq _ _)
-    exact ⟨fun j hj => hj, fun g => g⟩
+    exact ⟨fun j hj => hj, fun g => g, fun _ => rfl⟩
   · exact (apiFirst_c _ _ _ _ hop).sq
 
 /-! ### the invariant -/
@@ -791,8 +843,8 @@ theorem stepThread_facts (s : Sys) (t : Tid) (h : Hints) : StepFacts s (stepThre
         | true => rw [stopSd_not_specialProc _ hs] at hq; cases hq
       rw [stepThread_proc s t h i hk hsd]
       cases hpc : (s.thr t).pc <;> rw [hpc] at hq <;> simp [Pc.isSpecialProc] at hq
-      · simp only [stepProc]; exact armRunChecked_facts s t i hk
-      · simp only [stepProc]; exact doLaunch_facts s t i hk
+      · simp only [stepProc]; exact armRunChecked_facts s t i hk hpc
+      · simp only [stepProc]; exact doLaunch_facts s t i hk hpc
       · simp only [stepProc]; exact armLockCleanup_facts s t i
     | api id op =>
       rw [hk] at hq
